@@ -8,7 +8,7 @@ From Synnax Require Import Common.Base Core.Ontology Core.Rbac.
 Local Open Scope N_scope.
 
 (* the configuration the correspondence runs the model in (= what /repo carries) *)
-Definition model_rcfg : rcfg := rpinned.
+Definition model_rcfg : rcfg := rfixed.
 
 (* ---- observations ---- *)
 Definition raw_id : Type := str * str.
